@@ -2,23 +2,41 @@
 
 spec/Slice.tla      pull/yield machine of Slice (islice + the seven negative-index branches)
 spec/SliceRef.tla   PySlice (declarative)
-spec/Iterators.tla  Reverse, Chain, CountFrom, RunningChunkBy machines + references
+spec/SliceUse.tla   one Slice element used repeatedly: two interleaved run generators and the fill_into
+                    bookkeeping (operational, mirrored from the code) against Slice.tla's declarative side
+spec/Iterators.tla  Reverse, Chain, CountFrom, RunningChunkBy machines + references, for every way of
+                    constructing / feeding them (opt)
 spec/Trace_Slice.tla  validation of recorded runs beyond the exhaustive bounds
 """
 import itertools
 import random
 import collections
+import warnings
 
 from .. import core
+from .. import tlcpar
 from ..util import CountingIter, exc_name
 
 NONE = -1000
 # flow values that an implementation might confuse with "no value": identity is compared
 ODD_VALUES = [0, None, False, "", (), 0.0, [], {}, None, StopIteration, float("nan")]
+FLOW_KINDS = ("list", "tuple", "range", "gen")
 
 
 def _py(x):
     return None if x == "None" else int(x)
+
+
+def make_flow(n, kind):
+    if kind == "list":
+        return list(range(n))
+    if kind == "tuple":
+        return tuple(range(n))
+    if kind == "range":
+        return range(n)
+    if kind == "gen":
+        return (i for i in range(n))
+    return iter(range(n))
 
 
 def arg_forms(a, b, s):
@@ -31,7 +49,7 @@ def arg_forms(a, b, s):
     return forms
 
 
-def replay_slice(ctx, rec, lena):
+def replay_slice(ctx, rec, lena, idx=0):
     a, b, s, n = _py(rec["a"]), _py(rec["b"]), _py(rec["s"]), rec["n"]
     expected = rec["out"]
     bad = False
@@ -49,16 +67,17 @@ def replay_slice(ctx, rec, lena):
             # "every finite flow": the values are arbitrary objects (None and other falsy values included);
             # the slice must consist of the very objects at the selected positions
             objs = [ODD_VALUES[i % len(ODD_VALUES)] for i in range(n)]
+            fk = FLOW_KINDS[idx % 4]
             try:
                 # the same element object is run a second time (RunIf, Split and users reuse elements):
                 # run() keeps no state between runs; the flow may also be a re-iterable container
                 out2 = list(el.run(iter(objs)))
                 same = len(out2) == len(expected) and all(x is objs[i] for x, i in zip(out2, expected))
-                out3 = list(el.run(list(range(n))))
+                out3 = list(el.run(make_flow(n, fk)))
                 if out3 != expected:
                     bad = True
                     ctx.violation("Slice.run:container-flow:branch=%s" % rec["branch"],
-                                  {"args": repr(args), "flow": "list(range(%d))" % n, "expected": expected,
+                                  {"args": repr(args), "flow": "%s of range(%d)" % (fk, n), "expected": expected,
                                    "observed": out3})
             except Exception as exc:       # noqa
                 out2, same = "raised " + exc_name(exc), False
@@ -67,6 +86,20 @@ def replay_slice(ctx, rec, lena):
                 ctx.violation("Slice.run:odd-values:branch=%s" % rec["branch"],
                               {"args": repr(args), "flow": repr(objs), "expected_positions": expected,
                                "observed": repr(out2)})
+        # the deprecated alias ISlice constructs the same element (a representative slice of the cases)
+        if idx % 7 == 0 and hasattr(lena.flow, "ISlice"):
+            try:
+                with warnings.catch_warnings(record=True) as caught:
+                    warnings.simplefilter("always")
+                    out4 = list(lena.flow.ISlice(*args).run(iter(range(n))))
+                if not any(issubclass(w.category, DeprecationWarning) for w in caught):
+                    out4 = "no DeprecationWarning"
+            except Exception as exc:       # noqa
+                out4 = "raised " + exc_name(exc)
+            if out4 != expected:
+                bad = True
+                ctx.violation("ISlice:differs-from-Slice", {"args": repr(args), "n": n, "expected": expected,
+                                                            "observed": out4})
         # fill_into route for non-negative arguments
         if rec["fillstop"] != "na":
             el = lena.flow.Slice(*args)
@@ -115,17 +148,127 @@ def replay_slice(ctx, rec, lena):
                 bad = True
                 ctx.violation("Slice.fill_into", {"args": repr(args), "filled": sink.group,
                                                   "stop": stop, "expected_filled": exp_filled})
+            elif args == (a, b, s):
+                # the values filled are the very objects offered (falsy ones included)
+                el = lena.flow.Slice(*args)
+                sink = lena.flow.StoreFilled()
+                total = n + 12 if stop is None else stop
+                objs = [ODD_VALUES[i % len(ODD_VALUES)] for i in range(total)]
+                try:
+                    for v in objs:
+                        el.fill_into(sink, v)
+                    same = len(sink.group) == len(exp_filled) and all(x is objs[j] for x, j in zip(sink.group, exp_filled))
+                except Exception as exc:       # noqa
+                    same = False
+                if not same:
+                    bad = True
+                    ctx.violation("Slice.fill_into:odd-values", {"args": repr(args), "offered": repr(objs),
+                                                                 "filled": repr(sink.group), "expected_positions": exp_filled})
     return not bad
 
 
+def replay_use(ctx, rec, lena):
+    """One Slice element driven along a behaviour of SliceUse.tla."""
+    a, b, s, n = _py(rec["a"]), _py(rec["b"]), _py(rec["s"]), rec["n"]
+    el = lena.flow.Slice(a, b, s)
+    sink = lena.flow.StoreFilled()
+    gens = {}
+    end = object()
+    ctx.case(["use", rec["a"], rec["b"], rec["s"], n, rec["hist"]], nontrivial=True)
+    for step, op in enumerate(rec["hist"]):
+        what, i, val, raised, allowed = op
+        try:
+            if what == "s":
+                # generator 1 reads an iterator, generator 2 a re-iterable container
+                gens[i] = el.run(iter(range(n)) if i == 1 else list(range(n)))
+            elif what == "n":
+                got = next(gens[i], end)
+                exp = end if val == -1 else val
+                if got is not exp and got != exp:
+                    ctx.violation("Slice:interleaved-use:run", {"scenario": rec, "step": step,
+                                                                "observed": repr(got)})
+                    return False
+            elif what == "f":
+                before = len(sink.group)
+                try:
+                    el.fill_into(sink, i)
+                    did_raise = False
+                except lena.core.LenaStopFill:
+                    did_raise = True
+                new = sink.group[before:]
+                if did_raise and (not allowed or new):
+                    ctx.violation("Slice:interleaved-use:fill_into:early-stop", {"scenario": rec, "step": step})
+                    return False
+                if not did_raise and new != ([i] if val else []):
+                    ctx.violation("Slice:interleaved-use:fill_into", {"scenario": rec, "step": step,
+                                                                      "filled": new})
+                    return False
+        except Exception as exc:   # noqa
+            ctx.violation("Slice:interleaved-use:raised:" + exc_name(exc), {"scenario": rec, "step": step})
+            return False
+    return True
+
+
+class TupleSub(tuple):
+    pass
+
+
+def chunk_container(opt, k):
+    """-> (kwargs of RunningChunkBy, expected type, normaliser to a list)."""
+    if opt == "tuple":
+        return {}, tuple, list
+    if opt == "tuple_it":
+        return {"container": tuple, "from_iterable": True}, tuple, list
+    if opt == "list_it":
+        return {"container": list, "from_iterable": True}, list, list
+    if opt == "list_it1":
+        return {"container": list, "from_iterable": 1}, list, list
+    if opt == "set_it":
+        return {"container": set, "from_iterable": True}, set, sorted
+    if opt == "frozenset_it":
+        return {"container": frozenset, "from_iterable": True}, frozenset, sorted
+    if opt == "tuplesub_it":
+        return {"container": TupleSub, "from_iterable": True}, TupleSub, list
+    if opt == "nt":
+        nt = collections.namedtuple("W", ["f%d" % i for i in range(k)])
+        return {"container": nt}, nt, list
+    if opt == "fn_pos":
+        return {"container": lambda *args: [-1] + list(args)}, list, list
+    if opt == "fn_it":
+        return {"container": lambda it: [-1] + list(it), "from_iterable": True}, list, list
+    raise ValueError(opt)
+
+
+def chain_iterables(opt, lens):
+    its = [[(i + 1, j) for j in range(m)] for i, m in enumerate(lens)]
+    if opt in ("0", "1list", "2list", "3list"):
+        return its, True
+    if opt == "3tuple":
+        return [tuple(x) for x in its], True
+    if opt == "3range":
+        # ranges cannot hold pairs: chain of ranges, mapped to pairs afterwards
+        return None, True
+    if opt == "3gen":
+        return [(v for v in x) for x in its], False
+    if opt == "3iter":
+        return [iter(x) for x in its], False
+    if opt == "3mixed":
+        return [tuple(its[0]), (v for v in its[1]), dict.fromkeys(its[2])], False
+    raise ValueError(opt)
+
+
 def replay_iter(ctx, rec, lena):
-    kind, p1, p2, n = rec["kind"], rec["p1"], rec["p2"], rec["n"]
+    kind, p1, p2, n, opt = rec["kind"], rec["p1"], rec["p2"], rec["n"], rec.get("opt", "")
     exp = rec["out"]
     got = {}
     try:
         if kind == "reverse":
             rv = lena.flow.Reverse()
-            got["Reverse"] = list(rv.run(iter(range(n))))
+            src = {"iter": iter(range(n)), "list": list(range(n)), "tuple": tuple(range(n)),
+                   "gen": (i for i in range(n)), "range": range(n)}[opt]
+            got["Reverse"] = list(rv.run(src))
+            if opt == "list" and src != list(range(n)):
+                got["Reverse:input-list-changed"] = src
             got["Reverse:second-run"] = list(rv.run(iter(range(n))))
             # two runs of one element alive at the same time (an element used in two branches or
             # pipelines): each run has its own buffer
@@ -135,56 +278,89 @@ def replay_iter(ctx, rec, lena):
             got["Reverse:interleaved-runs"] = first + list(g1)
             if other != list(range(100 + n, 99, -1)):
                 got["Reverse:interleaved-runs"] = {"second generator": other}
+            objs = [ODD_VALUES[i % len(ODD_VALUES)] for i in range(n)]
+            o = list(rv.run(iter(objs)))
+            if len(o) != n or any(x is not y for x, y in zip(o, reversed(objs))):
+                got["Reverse:odd-values"] = repr(o)
         elif kind == "chain":
-            its = [[(i + 1, j) for j in range(m)] for i, m in enumerate((p1, p2, n))]
+            lens = {"0": [], "1list": [p1], "2list": [p1, p2]}.get(opt, [p1, p2, n])
             exp = [tuple(x) for x in exp]
-            ch = lena.flow.Chain(*its)
-            got["Chain"] = list(ch())
-            # the element is a Source: every call generates the chain of its (re-iterable) arguments anew
-            got["Chain:second-call"] = list(ch())
-            g1, g2 = ch(), ch()
-            inter = [list(itertools.islice(g1, 1)), list(g2), list(g1)]
-            got["Chain:interleaved-calls:first"] = inter[0] + inter[2]
-            got["Chain:interleaved-calls:second"] = inter[1]
-            got["Chain(iter)"] = list(lena.flow.Chain(*[iter(x) for x in its])())
+            its, reiterable = chain_iterables(opt, lens)
+            if opt == "3range":
+                # ranges hold numbers, not pairs: the number of the iterable is restored from the position
+                ch = lena.flow.Chain(*[range(m) for m in lens])
+                flat = [i + 1 for i, m in enumerate(lens) for j in range(m)]
+
+                def pairs(vals):
+                    return [(flat[k], v) for k, v in enumerate(vals)] if len(vals) == len(flat) else vals
+                got["Chain(range)"] = pairs(list(ch()))
+                got["Chain(range):second-call"] = pairs(list(ch()))
+            else:
+                ch = lena.flow.Chain(*its)
+                got["Chain"] = list(ch())
+                if reiterable:
+                    # the element is a Source: every call generates the chain of its (re-iterable) arguments anew
+                    got["Chain:second-call"] = list(ch())
+                    g1, g2 = ch(), ch()
+                    inter = [list(itertools.islice(g1, 1)), list(g2), list(g1)]
+                    got["Chain:interleaved-calls:first"] = inter[0] + inter[2]
+                    got["Chain:interleaved-calls:second"] = inter[1]
+            if opt == "3list":
+                objs = [[ODD_VALUES[(i + j) % len(ODD_VALUES)] for j in range(m)] for i, m in enumerate(lens)]
+                o = list(lena.flow.Chain(*objs)())
+                flat = [x for l in objs for x in l]
+                if len(o) != len(flat) or any(x is not y for x, y in zip(o, flat)):
+                    got["Chain:odd-values"] = repr(o)
         elif kind == "count":
-            cf = lena.flow.CountFrom(p1, p2)
+            cf = {"both": lambda: lena.flow.CountFrom(p1, p2), "kwboth": lambda: lena.flow.CountFrom(step=p2, start=p1),
+                  "start": lambda: lena.flow.CountFrom(p1), "kwstep": lambda: lena.flow.CountFrom(step=p2),
+                  "none": lambda: lena.flow.CountFrom()}[opt]()
             got["CountFrom"] = list(itertools.islice(cf(), n))
             got["CountFrom:second-call"] = list(itertools.islice(cf(), n))
+            g1, g2 = cf(), cf()
+            first = list(itertools.islice(g1, 1))
+            got["CountFrom:interleaved-calls:second"] = list(itertools.islice(g2, n))
+            got["CountFrom:interleaved-calls:first"] = (first + list(itertools.islice(g1, max(n - 1, 0))))[:n]
             # the machine counts by repeated addition (CountStep: v' = v + step), which is what
             # itertools.count does; with binary floats that differs from start + i*step, so the same
             # action sequence is replayed in float arithmetic on scaled arguments
-            for scale in (0.1, 1e16 + 2.0, 1e-3, 1.0 / 3.0):
-                fs, fp = p1 * scale, p2 * scale
-                ref, v = [], fs
-                for _ in range(n + 8):
-                    ref.append(v)
-                    v = v + fp
-                obs = list(itertools.islice(lena.flow.CountFrom(fs, fp)(), n + 8))
-                if obs != ref or obs != list(itertools.islice(itertools.count(fs, fp), n + 8)):
-                    got["CountFrom(float)"] = "differs from repeated addition / itertools.count for start=%r step=%r: %r" % (fs, fp, obs)
+            if opt == "both":
+                for scale in (0.1, 1e16 + 2.0, 1e-3, 1.0 / 3.0):
+                    fs, fp = p1 * scale, p2 * scale
+                    ref, v = [], fs
+                    for _ in range(n + 8):
+                        ref.append(v)
+                        v = v + fp
+                    obs = list(itertools.islice(lena.flow.CountFrom(fs, fp)(), n + 8))
+                    if obs != ref or obs != list(itertools.islice(itertools.count(fs, fp), n + 8)):
+                        got["CountFrom(float)"] = "differs from repeated addition / itertools.count for start=%r step=%r: %r" % (fs, fp, obs)
         elif kind == "chunk":
-            exp_t = [tuple(w) for w in exp]
-            rc = lena.flow.RunningChunkBy(p1)
-            got["RunningChunkBy(tuple)"] = list(rc.run(iter(range(n))))
-            got["RunningChunkBy(tuple):second-run"] = list(rc.run(iter(range(n))))
+            kwargs, ctype, norm = chunk_container(opt, p1)
+            name = "RunningChunkBy(%s)" % opt
+            exp = [list(w) for w in exp]
+            rc = lena.flow.RunningChunkBy(p1, **kwargs)
+            l = list(rc.run(iter(range(n))))
+            got[name] = [norm(w) for w in l]
+            if not all(type(w) is ctype for w in l):
+                got[name] = "wrong container type: %r" % (l,)
+            got[name + ":second-run"] = [norm(w) for w in rc.run(iter(range(n)))]
             g1, g2 = rc.run(iter(range(n))), rc.run(iter(range(50, 50 + n)))
             first = list(itertools.islice(g1, 1))
             list(g2)
-            got["RunningChunkBy(tuple):interleaved-runs"] = first + list(g1)
-            l = list(lena.flow.RunningChunkBy(p1, container=list, from_iterable=True).run(range(n)))
-            got["RunningChunkBy(list)"] = [tuple(w) for w in l]
-            nt = collections.namedtuple("W", ["f%d" % i for i in range(p1)])
-            l = list(lena.flow.RunningChunkBy(p1, container=nt).run(iter(range(n))))
-            got["RunningChunkBy(namedtuple)"] = [tuple(w) for w in l]
-            if not all(isinstance(w, nt) for w in l):
-                got["RunningChunkBy(namedtuple)"] = "wrong container type"
-            exp = exp_t
+            got[name + ":interleaved-runs"] = [norm(w) for w in first + list(g1)]
+            # the flow may be a container
+            got[name + ":container-flow"] = [norm(w) for w in rc.run([list(range(n)), tuple(range(n)), range(n)][p1 % 3])]
+            if opt in ("tuple", "list_it", "nt"):
+                objs = [ODD_VALUES[i % len(ODD_VALUES)] for i in range(n)]
+                o = [list(w) for w in rc.run(iter(objs))]
+                ref = [objs[j:j + p1] for j in range(0, n - p1 + 1)]
+                if len(o) != len(ref) or any(len(x) != len(y) or any(u is not v for u, v in zip(x, y)) for x, y in zip(o, ref)):
+                    got[name + ":odd-values"] = repr(o)
     except Exception as exc:   # noqa
         got[kind] = "raised " + exc_name(exc)
     ok = True
     for name, val in got.items():
-        if name == "CountFrom(float)":
+        if name == "CountFrom(float)" or name.endswith(":odd-values") or name.endswith("input-list-changed"):
             ok = False
             ctx.violation(name, {"scenario": rec, "observed": val})
             continue
@@ -198,7 +374,7 @@ def bad_steps(ctx, lena):
     """Other steps are rejected with LenaValueError at construction, whatever start and stop are."""
     n = 0
     rng = [None] + list(range(-7, 8))
-    for step in (0, -1, -3, 2.5):
+    for step in (0, -1, -3, 2.5, -2.5, 0.0, -1.0):
         for a in rng:
             for b in rng:
                 n += 1
@@ -212,6 +388,29 @@ def bad_steps(ctx, lena):
                 ctx.case(["badstep", a, b, step])
                 if res != "LenaValueError":
                     ctx.violation("Slice.__init__:bad-step:%s" % res, {"args": [a, b, step], "observed": res})
+    # a step that is a float with an integral value (2.0) is not a step of Python slicing either
+    # (xs[::2.0] is a TypeError): it is rejected with LenaValueError at construction - or, if an
+    # implementation takes it for the integer, the slice it produces is the reference one; what must
+    # not happen is an element that is constructed and then fails when it is run
+    for step in (1.0, 2.0, 3.0):
+        for a in rng:
+            for b in rng:
+                n += 1
+                ctx.case(["floatstep", a, b, step])
+                try:
+                    el = lena.flow.Slice(a, b, step)
+                except lena.core.LenaValueError:
+                    continue
+                except Exception as exc:    # noqa
+                    ctx.violation("Slice.__init__:integral-float-step:%s" % exc_name(exc), {"args": [a, b, step]})
+                    continue
+                try:
+                    out = list(el.run(iter(range(9))))
+                except Exception as exc:    # noqa
+                    out = "raised " + exc_name(exc)
+                if out != list(range(9))[a:b:int(step)]:
+                    ctx.violation("Slice.__init__:integral-float-step:accepted-but-unusable",
+                                  {"args": [a, b, step], "run": out, "expected": list(range(9))[a:b:int(step)]})
     return n
 
 
@@ -220,22 +419,31 @@ def run(ctx):
     import lena.core
     import lena
     ctx.assume("flow values are the integers 0..n-1, so outputs identify input positions")
-    # ---- design level
-    ctx.mc("Slice", "Slice_mc.cfg", coverage=True,
-           must_cover=("Start", "Skip", "Fill", "Lag", "Drain", "Emit", "Collect", "ISlice"))
-    ctx.mc("Iterators", "Iterators_mc.cfg", coverage=True,
-           must_cover=("ARevPop", "AChunkSlide", "AChainStep", "ACountStep"))
+    th = "_thorough" if ctx.thorough else ""
+    # ---- design level, and spec -> code exports (side by side)
+    jobs = [tlcpar.mc("Slice", "Slice_mc.cfg", ("Start", "Skip", "Fill", "Lag", "Drain", "Emit", "Collect", "ISlice")),
+            tlcpar.mc("Iterators", "Iterators_mc.cfg", ("ARevPop", "AChunkSlide", "AChainStep", "ACountStep")),
+            tlcpar.mc("SliceUse", "SliceUse%s_mc.cfg" % th, ("UStart", "UNextOf", "UFill")),
+            tlcpar.export("Slice", "Slice_export.cfg", 1000),
+            tlcpar.export("Iterators", "Iterators_export.cfg", 100),
+            tlcpar.export("SliceUse", "SliceUse%s_export.cfg" % th, 100)]
+    res = tlcpar.run_jobs(ctx, jobs)
+    recs, recs2, recs3 = res[3], res[4], res[5]
     # ---- spec -> code: every terminal state of the bounded model replayed on the real elements
-    recs = ctx.export("Slice", "Slice_export.cfg", min_records=1000)
-    for rec in recs:
-        replay_slice(ctx, rec, lena)
+    for i, rec in enumerate(recs):
+        replay_slice(ctx, rec, lena, i)
         ctx.case(["slice", rec["a"], rec["b"], rec["s"], rec["n"]], nontrivial=rec["n"] > 0)
     ctx.sample({"spec_behaviour": recs[len(recs) // 2]})
-    recs2 = ctx.export("Iterators", "Iterators_export.cfg", min_records=100)
+    opts = collections.Counter()
     for rec in recs2:
+        opts[(rec["kind"], rec["opt"])] += 1
         replay_iter(ctx, rec, lena)
-        ctx.case(["iter", rec["kind"], rec["p1"], rec["p2"], rec["n"]], nontrivial=rec["n"] > 0)
+        ctx.case(["iter", rec["kind"], rec["p1"], rec["p2"], rec["n"], rec["opt"]], nontrivial=rec["n"] > 0)
+    ctx.extra["iterator_variants"] = len(opts)
     ctx.sample({"spec_behaviour": recs2[len(recs2) // 3]})
+    for rec in recs3:
+        replay_use(ctx, rec, lena)
+    ctx.sample({"spec_behaviour_repeated_use": recs3[len(recs3) // 2]})
     bad_steps(ctx, lena)
     # ---- code -> spec: recorded runs beyond the exhaustive bounds, validated by Trace_Slice
     rnd = random.Random(ctx.seed)
@@ -270,7 +478,7 @@ def run(ctx):
                               "filled": sink.group, "stop": stop})
                 continue
         try:
-            out = list(lena.flow.Slice(*args).run(iter(range(n))))
+            out = list(lena.flow.Slice(*args).run(make_flow(n, rnd.choice(FLOW_KINDS + ("iter",)))))
         except Exception as exc:     # noqa
             ctx.violation("Slice.run:random:raised:" + exc_name(exc), {"args": repr(args), "n": n})
             continue
@@ -294,6 +502,9 @@ def run(ctx):
             raise core.MachineryError("trace spec does not bind: corrupted record %d, accepted %d" % (k, acc2))
         ctx.extra["binding_demo"] = "corrupted record %d of 50 rejected at index %d" % (k, acc2)
     return ctx.finish(
-        rule="S2C: every (start, stop, step, n) of the bounded Slice model and every Iterators scenario, "
-             "non-trivial = flow not empty; C2S: seeded random Slice runs/fills outside the bounds",
+        rule="S2C: every (start, stop, step, n) of the bounded Slice model in every argument form (flows as "
+             "iterator / list / tuple / range / generator, odd objects, the ISlice alias on every 7th case), every "
+             "behaviour of SliceUse (two interleaved runs and fill_into on one element) and every Iterators "
+             "scenario (all construction variants), non-trivial = flow not empty; C2S: seeded random Slice "
+             "runs/fills outside the bounds",
         exhaustive=True)
